@@ -579,6 +579,9 @@ def check_C05(v, tier, seed):
 
 def check_C11(v, tier, seed):
     runs = root_runs("C11", tier, seed, "all", 1500, 30000)
+    # the C API keeps failed calls' error values in its table until pathrs_errorinfo() consumes them: the descriptor
+    # table is compared while the error is still pending
+    runs.append(Run("C11-capi", ["capi-args"] + (["--thorough"] if tier == "thorough" else [])))
     concrete = run_oracle_cases(v, runs, oracle_fd_table, "descriptor table not restored")
     broken = generic_tie(v, runs, concrete)
     cov = coverage_of(runs)
@@ -793,6 +796,29 @@ def check_C09(v, tier, seed):
                               "target": c.meta.get("target")})
                 v.fail(facts, case_replay(c, msg))
                 concrete.add((r.name, c.id))
+    # the outcome must not depend on the descriptor number the handle happens to have
+    for r in runs:
+        groups = {}
+        for c in r.cases:
+            k = (tuple(sorted((a, b) for a, b in c.meta.items() if a != "fdnum")), tuple(c.op), c.cfg.get("backend"),
+                 (c.handle or {}).get("kind"))
+            cls = ("ok",) if c.res[:1] == ["ok"] else tuple(c.res[:3])
+            groups.setdefault(k, {}).setdefault(cls, []).append(c)
+        for k, by_cls in groups.items():
+            if len(by_cls) > 1:
+                major = max(by_cls.values(), key=len)
+                for cls, cs in by_cls.items():
+                    if cs is major:
+                        continue
+                    for c in cs:
+                        if (r.name, c.id) in concrete:
+                            continue
+                        msg = (f"reopen outcome depends on the descriptor number: fd {c.meta.get('fdnum')} gives {' '.join(cls)}, "
+                               f"{len(major)} other numbers give {' '.join(major[0].res[:3])}")
+                        facts = case_facts(c)
+                        facts.update({"kind": "oracle", "oracle": msg, "fdnum": c.meta.get("fdnum")})
+                        v.fail(facts, case_replay(c, msg))
+                        concrete.add((r.name, c.id))
     broken = generic_tie(v, runs, concrete)
     cov = coverage_of(runs, nontrivial=lambda c: True,
                       key=lambda c: (tuple(sorted(c.meta.items())), tuple(c.op)))
